@@ -65,7 +65,7 @@ def ref_set_compiles(decls, attrs=()):
 def plan(tier):
     if tier == 'thorough':
         return dict(small=[dict(n=2, parts=2), dict(n=2, parts=3, queries_only=True), dict(n=3, parts=2, queries_only=True)], per=3000, corpus_pairs=None)
-    return dict(small=[dict(n=2, parts=2)], per=420, corpus_pairs=160)
+    return dict(small=[dict(n=2, parts=2)], per=900, corpus_pairs=160)
 
 
 def check(run):
